@@ -43,6 +43,9 @@ GridGet == /\ Is("grid_get")
                  /\ UNCHANGED <<cache, objs>>
               \/ /\ E.outcome = "load" /\ E.name \notin DOMAIN cache /\ E.obj \notin objs
                  /\ cache' = (E.name :> E.obj) @@ cache /\ objs' = objs \cup {E.obj}
+              \* no such grid anywhere on the search path: possible only for a name that is not cached
+              \/ /\ E.outcome = "notfound" /\ E.name \notin DOMAIN cache
+                 /\ UNCHANGED <<cache, objs>>
            /\ UNCHANGED <<issued, seen, pending>>
 
 GridClear == /\ Is("grid_clear") /\ cache' = <<>>
